@@ -35,12 +35,15 @@ def resJson : Res (List Int) → Json
   | .val v => Json.arr #[Json.str "val", valJson v]
   | .flag b => Json.arr #[Json.str "flag", toJson b]
   | .unit => Json.arr #[Json.str "unit"]
-  | .raised => Json.arr #[Json.str "raised", Json.str "AttributeError"]
+  | .raised => Json.arr #[Json.str "raised"]
 
 def handleInst (j : Json) : Except String Json := do
-  let prov ← (← getArr j "prov").toList.mapM parseVal
+  -- a provider entry: null = returns None, [ints] = returns that list, "raise" = raises
+  let prov ← (← getArr j "prov").toList.mapM (fun x => match x with
+    | .str "raise" => pure (none : Option (Option (List Int)))
+    | _ => do pure (some (← parseVal x)))
   if prov.isEmpty then throw "empty provider"
-  let dp : Nat → Option (List Int) := fun k => (prov[min k (prov.length - 1)]?).getD none
+  let dp : Nat → Option (Option (List Int)) := fun k => (prov[min k (prov.length - 1)]?).getD (some none)
   let gs ← (← getArr j "ops").toList.mapM (fun o => do
     let a ← o.getArr?
     let t ← a[0]!.getNat?
@@ -48,7 +51,7 @@ def handleInst (j : Json) : Except String Json := do
     pure (t, op))
   let r := runT dp St.empty gs
   -- c15_tl_interleaved, executed: with a constant provider every thread's results are those of its solo run
-  let const := prov.all (fun v => v == prov.head!)
+  let const := prov.all (fun v => v == prov.head!) && prov.head!.isSome
   let threads := (gs.map (·.1)).eraseDups
   let soloOk := !const || threads.all (fun t =>
     decide ((r.1.store t, projRes t r.2) = solo dp 0 none (projOps t gs)))
